@@ -8,6 +8,9 @@
             the proofs talk about a table that is not today's.
     spec    the value the platform ABI / the property requires (`FalconModel/Abi.lean`), `-` where there is
             no requirement on the field by itself (`preserved`, `trashed`, `emitted`, `sweep_failed`).
+            For the query fields: `arg_types` / `stack_arg_offsets` = what the ABI requires `argument_type(n)`
+            to answer over the swept range; `is_preserved` / `is_trashed` = what the documented semantics
+            (Some(true) / Some(false) / None) gives for the table's own preserved and trashed sets.
   A disagreement falcon ≠ spec is the concrete failing input of this finite property:
   (architecture, field, observed value, required value).
 -/
